@@ -117,7 +117,7 @@ pub struct Gen {
 pub fn make_cfg(rng: &mut Rng, prof: &Profile, base: usize) -> HistCfg {
     let universe = rng.range(prof.universe.0 as usize, prof.universe.1 as usize) as u32;
     let extreme = rng.below(1000) < prof.extreme_permille;
-    let hk = if rng.below(1000) < prof.default_hasher_permille { 4 } else { rng.below(4) as u8 };
+    let hk = if rng.below(1000) < prof.default_hasher_permille { 4 } else { crate::types::TH_KINDS[rng.usize_below(crate::types::TH_KINDS.len())] };
     let typical = base + 60;
     let max = if extreme {
         match rng.below(5) { 0 => usize::MAX, 1 => usize::MAX - rng.usize_below(1000), 2 => usize::MAX / 2 + rng.usize_below(1 << 40), 3 => (1usize << 63) + rng.usize_below(1 << 20), _ => usize::MAX - (rng.usize_below(1 << 62)) }
